@@ -510,4 +510,4 @@ def run(case, ctx):
 
 def stages(tier):
     return [{"name": "hist", "kind": "hyp", "strategy": strategy, "run": run,
-             "examples": {"quick": 24000, "thorough": 300000}, "shards": 16}]
+             "examples": {"quick": 24000, "thorough": 100000}, "shards": 16}]
